@@ -38,6 +38,12 @@ def gen_block(rng, files, used_names):
         keys["Name"] = nm
         keys["Type"] = "0"
         keys["Path"] = rng.choice(["sub/thing", "x/../y", "plain"])
+        if rng.random() < 0.4:
+            # "this server", said explicitly: the relative path is still anchored to the directory
+            if rng.random() < 0.7:
+                keys["Host"] = "+"
+            if rng.random() < 0.7:
+                keys["Port"] = "+"
     elif kind == "merge":
         keys["Path"] = "./" + rng.choice(files)
         if rng.random() < 0.8:
